@@ -396,7 +396,7 @@ func TestVerifC36(t *testing.T) {
 	r := vlib.Start("C36")
 	defer r.Finish()
 	r.Rule("P: every (initial rules configuration x client address) x every event history of length <= depth that ends with a request, each on a fresh RateLimitHandler; " +
-		"non-trivial = the request finds a cached limiter for its address (a previous request was served) AND either the rules or the request's client id / node differ from those of the previous request. " +
+		"non-trivial = the final request finds a cached limiter for its address (an earlier request was served) AND the event before it is a rule change, an AddNode or a request with another client id. " +
 		"E: per rule (b per d) every non-decreasing placement of k <= 2b+2 requests on the time grid {0,d/4,d/2,d,2d}")
 	r.Assume("limiters are scoped per (client address, handler) as in the code; counts restart at every rule-set replacement or suffrage membership change")
 	r.Assume("time.Now() advances between events (the harness waits for the nanosecond clock to tick), so updatedAt stamps are ordered like the events")
@@ -479,7 +479,6 @@ func TestVerifC36(t *testing.T) {
 			}
 
 			rec()
-			r.Trace()
 		}
 	}
 
@@ -520,6 +519,7 @@ func c36RunHistory(r *vlib.Run, env *c36Env, cfg c36Cfg, an, prefix string, hist
 	res := s.apply(ev)
 
 	r.Eval()
+	r.Trace()
 	r.TransitionN(int64(len(hist)))
 
 	wtyp, wrule := s.m.choose(env, addr.IP, map[bool]string{true: "", false: ev.arg}[ev.arg == "-"])
@@ -628,6 +628,7 @@ func c36Enforcement(r *vlib.Run, env *c36Env, item int) {
 
 			l := newLimiter()
 			r.Eval()
+			r.Trace()
 			r.StatesN(1)
 
 			if l.Burst() != x.b {
@@ -722,8 +723,6 @@ func c36Enforcement(r *vlib.Run, env *c36Env, item int) {
 				run(fmt.Sprintf("%s/mask=%d", prefix, mask), sched)
 			}
 		}
-
-		r.Trace()
 	}
 }
 
